@@ -1499,6 +1499,9 @@ class NodeLiteral:
         self.pos = pos
 
     def evaluate(self, environment):
+        if self.value.isString():
+            # strings can be changed in place by element assignment
+            return ValueString(self.value.value)
         return self.value
 
     def __repr__(self):
